@@ -560,7 +560,7 @@ func (m *Machine) unop(g *Goroutine, fr *Frame, x *ssa.UnOp) stepStatus {
 	case token.MUL:
 		p := m.get(fr, x.X).(PtrVal)
 		m.noteRead(p.obj)
-		fr.locals[x] = m.load(p)
+		fr.locals[x] = m.copySyncState(m.load(p))
 		return stNext
 	case token.NOT:
 		fr.locals[x] = tNot(m.get(fr, x.X).(*Term))
@@ -922,4 +922,52 @@ func (m *Machine) typeAssert(v Value, x *ssa.TypeAssert) Value {
 		return TupleVal{res, tTrue}
 	}
 	return res
+}
+
+// copySyncState: loading a whole struct (or array) value that carries a sync.Mutex / RWMutex / Once copies the
+// STATE of that primitive, as Go does: the copy is an independent mutex that starts out exactly as locked as the
+// original was at that moment (a value receiver on a type with a mutex, a struct assignment). Values without
+// such fields are returned unchanged.
+func (m *Machine) copySyncState(v Value) Value {
+	nv, _ := m.copySync(v)
+	return nv
+}
+
+func (m *Machine) copySync(v Value) (Value, bool) {
+	switch x := v.(type) {
+	case StructVal:
+		var out []Value
+		for i, f := range x.f {
+			nf, ch := m.copySync(f)
+			if ch && out == nil {
+				out = append([]Value{}, x.f...)
+			}
+			if out != nil {
+				out[i] = nf
+			}
+		}
+		if out != nil {
+			return StructVal{f: out}, true
+		}
+	case ArrayVal:
+		var out []Value
+		for i, f := range x.e {
+			nf, ch := m.copySync(f)
+			if ch && out == nil {
+				out = append([]Value{}, x.e...)
+			}
+			if out != nil {
+				out[i] = nf
+			}
+		}
+		if out != nil {
+			return ArrayVal{e: out}, true
+		}
+	case *MutexObj:
+		m.nextID++
+		return &MutexObj{id: m.nextID, holder: x.holder, readers: x.readers, name: x.name, vc: vcCopy(x.vc), rvc: vcCopy(x.rvc)}, true
+	case *OnceObj:
+		return &OnceObj{done: x.done, running: x.running, vc: vcCopy(x.vc)}, true
+	}
+	return v, false
 }
